@@ -254,6 +254,57 @@ Proof.
     rewrite Forall_forall in Hnz. apply Hnz. apply nth_In. lia.
 Qed.
 
+(* force_poll_mesh = True: the same rows snapped to the search grid read from optim_state["search_mesh_size"] *)
+Lemma rhe_comp : forall a b : Q, (a == b)%Q -> round_half_even a = round_half_even b.
+Proof.
+  intros a b H. unfold round_half_even. rewrite (Qfloor_comp a b H).
+  assert (Hc : ((a - inject_Z (Qfloor b) ?= 1 # 2) = (b - inject_Z (Qfloor b) ?= 1 # 2))%Q) by (rewrite H; reflexivity).
+  rewrite Hc. reflexivity.
+Qed.
+
+Lemma src_cand_entry_forced : forall D s dr sd pm i j,
+  List.length sd = D -> s_force s = true -> ~ (nth j (s_ps s) 0 == 0)%Q -> (i < 2 * D)%nat -> (j < D)%nat ->
+  (cand_array src_gen src_cand D s (mk_oracle dr sd pm) i j
+   == s_smesh_state s * inject_Z (round_half_even
+        (Qred (nth j (s_u s) 0 + s_mesh_state s * inject_Z (zdir D (poll_n (s_smesh_state s) (s_mesh_state s)) dr sd pm i j)) / s_smesh_state s)))%Q.
+Proof.
+  intros D s dr sd pm i j Hsd Hforce Hnz Hi Hj.
+  unfold cand_array, src_cand, c_body, c_arg.
+  lazy beta iota zeta delta [run eval upd state_env state_flag fst snd String.eqb Ascii.eqb Bool.eqb no_env].
+  rewrite Hforce.
+  match goal with |- (_ * inject_Z (round_half_even ?a) == _ * inject_Z (round_half_even ?b))%Q =>
+    assert (Hab : (a == b)%Q); [ | rewrite (rhe_comp a b Hab); reflexivity] end.
+  rewrite Qred_correct. rewrite src_gen_entry by assumption.
+  unfold vector, scalar. apply Qdiv_comp; [ | reflexivity]. field. exact Hnz.
+Qed.
+
+Lemma snap_row : forall sg pts i, (i < List.length pts)%nat -> nth i (snap_points sg pts) [] = map (snap sg) (nth i pts []).
+Proof. intros. unfold snap_points. apply (nth_map_default _ _ (map (snap sg)) pts i []). assumption. Qed.
+
+Theorem candidates_forced_are_source : forall D s dr sd pm,
+  List.length (s_ps s) = D -> List.length (s_u s) = D -> List.length sd = D -> perm_ok D pm ->
+  Forall (fun p => ~ (p == 0)%Q) (s_ps s) -> s_force s = true ->
+  cand_pre src_gen src_cand D s (mk_oracle dr sd pm)
+  = snap_points (s_smesh_state s)
+      (poll_points (s_u s) (s_mesh_state s) (poll_dirs (poll_basis D (poll_n (s_smesh_state s) (s_mesh_state s)) dr sd pm))).
+Proof.
+  intros D s dr sd pm Hps Hu Hsd Hpm Hnz Hforce. unfold cand_pre.
+  set (pts := poll_points (s_u s) (s_mesh_state s) (poll_dirs (poll_basis D (poll_n (s_smesh_state s) (s_mesh_state s)) dr sd pm))).
+  assert (Hlen : List.length pts = (2 * D)%nat) by (unfold pts, poll_points; rewrite map_length; apply dirs_length).
+  apply (qmat_ext (2 * D) D).
+  - apply mat_length.
+  - unfold snap_points. rewrite map_length. exact Hlen.
+  - intros i Hi. split; [apply mat_row_length; exact Hi | ].
+    rewrite snap_row by lia. rewrite map_length. unfold pts. apply points_row_length; assumption.
+  - intros i j Hi Hj. rewrite mat_entry by assumption.
+    unfold qentry. rewrite snap_row by lia.
+    rewrite (nth_map_default _ _ (snap (s_smesh_state s)) (nth i pts []) j 0%Q)
+      by (unfold pts; rewrite points_row_length by assumption; exact Hj).
+    fold (qentry pts i j). unfold pts. rewrite points_entry by assumption.
+    unfold snap. apply Qred_complete. apply src_cand_entry_forced; try assumption.
+    rewrite Forall_forall in Hnz. apply Hnz. apply nth_In. lia.
+Qed.
+
 (* the evaluate / delete bookkeeping *)
 Theorem loop_is_source : forall (A : Type) (max_polls : nat) (cands : list A) (choices : list nat),
   gen_loop src_cand max_polls cands choices = poll_loop max_polls cands choices.
